@@ -145,5 +145,111 @@ def rule_o1(ctx):
     r.notes.append("helper summaries: %s" % ", ".join("%s#%d=%s" % (k[0], k[1], v) for k, v in sorted(summ.items())))
 
 
+ALLOCS = ("nni_alloc", "nni_zalloc")
+
+
+def _base(n):
+    """object an lvalue lives in: x->f / x.f -> x ; x -> x"""
+    while n is not None and n.get("k") in ("mem", "idx") or (n is not None and n.get("k") == "un" and n.get("op") in ("&", "*")):
+        n = n["b"] if n.get("k") in ("mem", "idx") else n["e"]
+    return n
+
+
+def rule_o4(ctx):
+    from ..core import same_expr, const_of
+    from .c01 import reaching_defs
+    r = ctx.rule("C03.O4", "T11", "sized free agreement: wherever nni_free(p, x->F) takes the size from a companion field of the "
+                 "object that owns (or is) the block, that field is written -- in every function that allocates such a block "
+                 "-- with the very size expression given to the allocator", floor=22)
+    prog = ctx.prog
+    pairs = {}   # companion 'rec.size' -> {'buf': 'rec.buf' or None (whole object), sites}
+    for f in prog.functions:
+        for s in f.calls("nni_free"):
+            a = [f.expand(x) for x in s.node["args"]]
+            sz = a[1]
+            if sz.get("k") != "mem":
+                continue
+            comp = last_field(sz)
+            own = a[0]
+            if own.get("k") == "var" and same_expr(_base(sz), own):
+                pairs.setdefault(comp, {"buf": None, "sites": []})["sites"].append((f, s))
+            elif own.get("k") == "mem" and same_expr(_base(sz["b"]) if False else sz["b"], own["b"]):
+                pairs.setdefault(comp, {"buf": last_field(own), "sites": []})["sites"].append((f, s))
+    if len(pairs) < 10:
+        raise AnalysisBroken("only %d sized-free companion fields found" % len(pairs))
+    # all stores per field
+    stores = defaultdict(list)
+    for f in prog.functions:
+        if f.cfg_failed:
+            continue
+        for s in f.assigns():
+            lf = last_field(s.node["lhs"]) if s.node["lhs"].get("k") == "mem" else None
+            if lf:
+                stores[lf].append((f, s))
+
+    def alloc_size(f, e, pos, depth=0):
+        """size expression if e is (a local holding) the result of nni_alloc/nni_zalloc"""
+        e = f.expand(e)
+        while e is not None and e.get("k") == "asg":
+            e = f.expand(e["rhs"])
+        if e is not None and e.get("k") == "call" and e.get("fn") in ALLOCS:
+            return f.expand(e["args"][0])
+        if e is not None and e.get("k") == "var" and depth < 2:
+            rd = reaching_defs(f, e["n"], pos)
+            szs = [alloc_size(f, x, p, depth + 1) for p, x in rd]
+            szs = [x for x in szs if x is not None]
+            if szs and len(szs) == len(rd):
+                return szs[0]
+        return None
+    for comp, info in sorted(pairs.items()):
+        f0, s0 = info["sites"][0]
+        writers = [(f, s) for f, s in stores.get(comp, []) if not (const_of(f.expand(s.node["rhs"])) == 0)]
+        if not writers:
+            ctx.fail(r, f0, "size field %s is never written" % comp, s0.line,
+                     "nni_free(%s, %s): no function ever stores a size into %s, so every such block is freed with size 0 -- a "
+                     "sized free_fn supplied through nng_init_params is told the wrong size"
+                     % (show(f0.expand(s0.node["args"][0])), show(f0.expand(s0.node["args"][1])), comp))
+            continue
+        if info["buf"] is None:
+            # whole object: the function that allocates it records the allocation size
+            rec = comp.split(".")[0]
+            okc = 0
+            for f, s in writers:
+                obj = _base(s.node["lhs"])
+                if obj is None or obj.get("k") != "var":
+                    continue
+                rd = reaching_defs(f, obj["n"], (s.b, s.i))
+                szs = [alloc_size(f, x, p) for p, x in rd]
+                if not szs or any(x is None for x in szs):
+                    continue
+                rhs = f.expand(s.node["rhs"])
+                if all(same_expr(rhs, x) for x in szs):
+                    okc += 1
+                    r.ob(f, "%s = allocation size of the object" % comp)
+                else:
+                    ctx.fail(r, f, "%s records a different size than was allocated" % comp, s.line,
+                             "allocated %s, recorded %s" % (show(szs[0]), show(rhs)))
+            if not okc:
+                ctx.fail(r, f0, "size field %s not set where the object is allocated" % comp, s0.line,
+                         "no allocation site of %s stores the allocation size into %s" % (rec, comp))
+            continue
+        # buffer + companion: every function that stores a fresh allocation into buf also stores that size into comp
+        for f, s in stores.get(info["buf"], []):
+            sz = alloc_size(f, s.node["rhs"], (s.b, s.i))
+            if sz is None:
+                continue
+            mates = [t for g, t in stores.get(comp, []) if g is f and same_expr(_base(t.node["lhs"]), _base(s.node["lhs"]))]
+            if not mates:
+                ctx.fail(r, f, "%s allocated without recording %s" % (info["buf"], comp), s.line,
+                         "%s receives a fresh block of %s bytes but %s is not updated in %s" % (info["buf"], show(sz), comp, f.name))
+            elif any(same_expr(f.expand(t.node["rhs"]), sz) for t in mates):
+                r.ob(f, "%s = size of the block stored in %s" % (comp, info["buf"]))
+            else:
+                ctx.fail(r, f, "%s records a different size than was allocated for %s" % (comp, info["buf"]), s.line,
+                         "allocated %s, recorded %s" % (show(sz), ", ".join(show(f.expand(t.node["rhs"])) for t in mates)))
+        r.ob(None, "%s: %d frees use it, %d writers" % (comp, len(info["sites"]), len(writers)))
+
+
 def run(ctx):
     rule_o1(ctx)
+    rule_o4(ctx)
